@@ -244,29 +244,50 @@ def cubic_spline(
         # drops a cubic term that an absolute threshold on `a` does not make negligible, and the
         # root selection can return a value slightly outside the bin (or NaN). Make the result
         # independent of that: bracket the root of the (monotone) cubic inside the bin by
-        # bisection, then take one Newton step (which also carries the exact gradients), kept
-        # inside the bracket.
+        # bisection, then polish it with Newton steps (which also carry the exact gradients),
+        # kept inside the bracket.
         def _cubic(shifted):
             return (
                 (inputs_a * shifted + inputs_b) * shifted + inputs_c
             ) * shifted + inputs_d
 
+        bin_widths = (input_right_cumwidths - input_left_cumwidths).detach()
         with torch.no_grad():
             lower = torch.zeros_like(inputs)
-            upper = input_right_cumwidths - input_left_cumwidths
-            for _ in range(40):
+            upper = bin_widths.clone()
+            # Halve until the bracket is about sqrt(eps) of the bin wide: Newton's method then
+            # converges to full precision in two steps and still has room inside the bracket.
+            num_halvings = int(-math.log2(torch.finfo(inputs.dtype).eps)) // 2
+            for _ in range(num_halvings):
                 middle = 0.5 * (lower + upper)
                 below = _cubic(middle) < inputs
                 lower = torch.where(below, middle, lower)
                 upper = torch.where(below, upper, middle)
             shifted_outputs = 0.5 * (lower + upper)
-        slopes_at_root = (
-            3 * inputs_a * shifted_outputs + 2 * inputs_b
-        ) * shifted_outputs + inputs_c
-        shifted_outputs = (
-            shifted_outputs - (_cubic(shifted_outputs) - inputs) / slopes_at_root
-        )
-        shifted_outputs = torch.max(torch.min(shifted_outputs, upper), lower)
+        polished = torch.zeros_like(inputs, dtype=torch.bool)
+        for _ in range(2):
+            slopes_at_root = (
+                3 * inputs_a * shifted_outputs + 2 * inputs_b
+            ) * shifted_outputs + inputs_c
+            newton = (
+                shifted_outputs - (_cubic(shifted_outputs) - inputs) / slopes_at_root
+            )
+            # Keep a Newton step only where it stays inside the bracket (up to rounding), and
+            # never leave the bin.
+            tolerance = 8 * torch.finfo(inputs.dtype).eps * bin_widths
+            inside_bracket = (newton >= lower - tolerance) & (newton <= upper + tolerance)
+            newton = torch.max(torch.min(newton, bin_widths), torch.zeros_like(newton))
+            shifted_outputs = torch.where(inside_bracket, newton, shifted_outputs)
+            polished = polished | inside_bracket
+        if not polished.all():
+            # Where Newton's method is not trusted (nearly flat ends of a bin) finish by bisection.
+            with torch.no_grad():
+                for _ in range(num_halvings + 3):
+                    middle = 0.5 * (lower + upper)
+                    below = _cubic(middle) < inputs
+                    lower = torch.where(below, middle, lower)
+                    upper = torch.where(below, upper, middle)
+            shifted_outputs = torch.where(polished, shifted_outputs, 0.5 * (lower + upper))
         outputs = shifted_outputs + input_left_cumwidths
 
         logabsdet = -torch.log(
